@@ -257,8 +257,40 @@ class ClientRun:
 
         self.inject("EnvLoss", args, fn)
 
+    def ev_writefail(self):
+        """From now on the current transport raises on write (the peer is gone, asyncio has not noticed yet)."""
+        args = {"i": 0}
+
+        def fn():
+            tr = self.w.tr
+            if tr is None or not tr.can_receive() or tr.fail_writes is not None:
+                return False
+            for i, c in enumerate(self.conns):
+                fh = c._frame_helper
+                if fh is not None and getattr(fh, "_transport", None) is tr:
+                    args["i"] = i + 1
+            if not args["i"]:
+                return False
+            tr.fail_writes = self.w.rng.choice([OSError(32, "broken pipe"), ConnectionResetError(104, "reset"), RuntimeError("unable to perform operation on closed transport")])
+
+        self.inject("EnvWriteFail", args, fn)
+
     def ev_reset(self):
-        self.inject("env", {"e": "reset"}, self.w.reset)
+        """recv() fails: asyncio force-closes the transport now (writes are dropped silently from here on) and
+        delivers connection_lost one iteration later."""
+        args = {"e": "reset", "i": 0}
+
+        def fn():
+            tr = self.w.tr
+            if tr is None or not tr.can_receive():
+                return False
+            for i, c in enumerate(self.conns):
+                fh = c._frame_helper
+                if fh is not None and getattr(fh, "_transport", None) is tr:
+                    args["i"] = i + 1
+            return self.w.reset()
+
+        self.inject("EnvReset", args, fn)
 
     # --------------------------------------------------------------- running
     def settle(self) -> None:
@@ -337,6 +369,7 @@ def gaps(rng: random.Random) -> list:
     return [("idle",)]
 
 
+WRITEFAIL = [("ev", "writefail")]
 DISTURB = [("ev", "disconnect", False), ("ev", "disconnect", True), ("ev", "eof"), ("ev", "reset"), ("ev", "chunk", [{"k": "discreq"}]),
            ("ev", "resolve", "err"), ("ev", "tcp", "err"), ("ev", "chunk", [HELLO_BAD]), ("ev", "chunk", [HELLO_OK, CONNECT_BAD]), ("tick",),
            ("ev", "start"), ("ev", "connect")]
@@ -356,6 +389,8 @@ def random_history(rng: random.Random, cfg: dict, sessions: int, p_dist: float) 
             sch.append(ev)
             sch += [("idle",)] if rng.random() < 0.7 else gaps(rng)
         # the session (if any) lives a bit, then ends somehow
+        if rng.random() < 0.2:
+            sch += [("ev", "writefail")] + gaps(rng)
         for _ in range(rng.randrange(0, 3)):
             sch.append(("ev", "api", rng.choice(API_SAMPLE)))
             sch += gaps(rng)
@@ -425,9 +460,9 @@ def stop_hook_family(cfgs: list) -> list:
     completed, disturbed or abandoned, and a further attempt must be accepted afterwards."""
     out = []
     ends = [("ev", "disconnect", False), ("ev", "disconnect", True), ("ev", "eof"), ("ev", "reset"), ("ev", "chunk", [{"k": "discreq"}]),
-            ("ev", "chunk", [{"k": "garbage"}]), ("tick",)]
+            ("ev", "chunk", [{"k": "garbage"}]), ("tick",), ("wf", "switch_command"), ("wf", "device_info"), ("wf", "subscribe_states"), ("wf", "disconnect")]
     for base in cfgs:
-        for hook in ("start", "api"):
+        for hook in ("start", "api", "none"):
             cfg = dict(base, hook=hook)
             hello = [HELLO_OK] + ([CONNECT_OK] if cfg.get("login") else [])
             for split in (True, False):
@@ -437,7 +472,12 @@ def stop_hook_family(cfgs: list) -> list:
                 for end in ends:
                     for g in ([], [("iter", 1)], [("idle",)]):
                         for after in ("complete", "fail", "disconnect", "second_start"):
-                            sch = list(pre) + [("ev", "api", "switch_command")] + g + [end] + g
+                            if end[0] == "wf":
+                                # the transport starts failing its writes; the next call (or a graceful disconnect) hits it
+                                nxt = ("ev", "disconnect", False) if end[1] == "disconnect" else ("ev", "api", end[1])
+                                sch = list(pre) + [("ev", "writefail")] + g + [nxt] + g + [("ev", "api", "switch_command")] + g
+                            else:
+                                sch = list(pre) + [("ev", "api", "switch_command")] + g + [end] + g
                             if end == ("tick",):
                                 sch += [("tick",)] * 8      # keep-alive: ping, then the pong time-out ends the session
                             if after == "complete":
